@@ -617,13 +617,20 @@ def gen_c19(tier, seed):
             st += ['t:%x' % ((k + 1) * 1000000), 'loop:3e8']
         polls = ['pb'] * 6000
         g.add(['T', '%x' % r.randrange(1 << 32), '2', ','.join(st) + '/' + ','.join(polls) + '/' + ','.join(polls)], 'boot-contention')
+    # injected keys in bursts: several keyboard bytes queued back to back (as an input thread does), the receiver FIFO and
+    # holding register fill before the firmware reads; each must come out exactly once, in order (end-to-end on the
+    # implementation, judged by mon_sys; the scenario is the one of C01's burst cases)
+    for c in gen_c01(tier, seed + 77)['cases']:
+        toks = c.split()
+        if toks[1] == 'S' and any(t == 'k:1e8480' for t in toks):
+            g.add(toks[1:], 'key-burst-end-to-end')
     return g.result('Sequential call lists over all 19 exported functions with edge arguments (every version number class, register numbers 0-255, '
                     'addresses in and between all devices, all button numbers, NVRAM set/get round trips, transmit polls preceded by a snapshot of '
                     'the queues); three real threads (stepper / input / input+poller) with seeded yields, queues snapshotted before and after; '
                     'firmware boot by a stepping thread while two threads poll the keyboard transmit queue.')
 
 
-PROPS['C19'] = {'gen': gen_c19, 'monitors': [monitors.mon_capi]}
+PROPS['C19'] = {'gen': gen_c19, 'monitors': [monitors.mon_capi, monitors.mon_sys]}
 
 # --------------------------------------------------------------------------- C01 (whole system)
 
@@ -653,9 +660,11 @@ def gen_c01(tier, seed):
                     combos += [(v, k, nv)] * (3 if v == 2 else 1)
     # firmware-saved NVRAM with each valid host-speed option (offset 2: 0..5; 5 = 300 baud, where a character takes
     # longer than the 20 ms key spacing), and a full window of line feeds (scrolling) before the typing starts
+    bursts = [(2, 1000, 'burst', nb) for nb in (3, 4)] if tier == 'quick' else [(v, k, 'burst', nb) for v in (1, 2) for k in (250, 1000) for nb in (2, 3, 4)]
     extra = [(2, 1000, 'opt5', 0), (2, 1000, 'blank', 130)] if tier == 'quick' else \
             [(2, k, 'opt%d' % o, 0) for o in range(6) for k in (250, 1000)] + [(v, k, 'blank', 130) for v in (1, 2) for k in (250, 1000, 4000)]
-    for (v, k, nv, nlf) in [(a, b, c, 0) for (a, b, c) in combos] + extra:
+    for (v, k, nv, nlf) in [(a, b, c, 0) for (a, b, c) in combos] + extra + bursts:
+        nlf_burst, nlf = (nlf, 0) if nv == 'burst' else (0, nlf)
         t20 = max(1, 20000000 // k)          # steps per 20 ms of emulated time
         maxboot = 0x8000000
         ops = []
@@ -671,7 +680,17 @@ def gen_c01(tier, seed):
         for _ in range(nlf):
             ops += ['qa:a', 'run:%x' % max(1, t20 // 4)]
         keys = [r.choice(list(range(0x20, 0x7f))) for _ in range(r.randrange(5, 12) if not nv.startswith('opt') else 12)]
-        for kc in keys:
+        if nv == 'burst':
+            # a burst: several keys queued at once, then a few instructions that each take a whole character time, so
+            # that the receiver FIFO (3) and the holding register fill before the firmware's handler reads; at most 4 such
+            # instructions: a fifth character would overrun the holding register, which is a flagged (legitimate) loss
+            keys = keys[:6]
+            ops += ['qb:%x' % kc for kc in keys]
+            ops += ['k:%x' % 2000000, 'run:%x' % nlf_burst, 'k:%x' % k, 'run:%x' % (t20 * 8)]
+            keys_typed = []
+        else:
+            keys_typed = keys
+        for kc in keys_typed:
             ops += ['qb:%x' % kc]
             pause = t20 * r.choice([1, 1, 2, 3])
             if r.random() < 0.5:
